@@ -48,7 +48,7 @@ VIEW View
 INVARIANT InvStoreOK InvRewritePreserves
 PROPERTY PropNoAliasing
 """
-MC_ACTIONS = ["RwCopy", "RwPickle", "RwJoin", "RwJoinNew", "RwRename", "RwScope", "RwUnscope", "RwNest", "RwSimplify",
+MC_ACTIONS = ["RwCopy", "RwPickle", "RwJoin", "RwJoinNew", "RwRename", "RwOverwrite", "RwScope", "RwUnscope", "RwNest", "RwSimplify",
               "RwSplit", "RwAxis", "MuDefaults", "MuBound", "MuRenames"]
 
 BLANK_VAL = {"f": "", "a": []}
@@ -58,7 +58,7 @@ BLANK_ARGS = {"ren": [], "scope": "", "ins": BLANK_SEL, "outs": BLANK_SEL, "exc"
 BLANK_EV = {"e": "", "id": 0, "desc": {"funcs": []}, "kind": "", "src": 0, "src2": 0, "args": BLANK_ARGS, "new_ids": [],
             "struct": [], "exc": "", "out": "", "mode": "", "conv": "", "inputs": [], "roots": [], "val": BLANK_VAL,
             "vals": []}
-IN_PLACE = {"update_renames", "update_scope", "remove_scope", "nest", "add_mapspec_axis", "update_defaults", "update_bound"}
+IN_PLACE = {"update_renames", "overwrite_renames", "update_scope", "remove_scope", "nest", "add_mapspec_axis", "update_defaults", "update_bound"}
 
 
 def ev(**kw) -> dict:
@@ -161,7 +161,9 @@ class Family:
         for n, v in op.get("inputs", []):
             self.base_vals.setdefault(n, v)
         self.kinds.update(op.get("kinds", {}))
-        self.objs[i] = Obj(pl, names, {}, ["new"], {"mutated": False})
+        # built without initial renames: the built spelling of every name is the model's original name (overwrite_renames)
+        plain = not any(getattr(f, "_renames", None) for f in pl.functions)
+        self.objs[i] = Obj(pl, names, {}, ["new"], {"mutated": False, "plain_built": plain})
         self.events.append(ev(e="new", id=i, desc=op["tdesc"]))
 
     def _rewrite(self, kind: str, src: int, a: dict, fn, *, src2: int = 0, members=None) -> Any:
@@ -255,6 +257,30 @@ class Family:
         if r is not None:
             self._apply_ren(self.objs[src], op["ren"])
             self.objs[src].lineage.append("update_renames")
+            self._finish([src])
+
+    def op_overwrite_renames(self, op: dict) -> None:
+        """update_renames(ren, overwrite=True, update_from=...): names that `ren` does not mention revert to the spelling the
+        functions were built with.  Only issued on objects that never went through nest / simplify / join and whose functions
+        were built without initial renames (then the built spelling is the original name of the model)."""
+        a = args(ren=[[c, name_rec(n)] for c, n in op["ren"].items()])
+        src = op["src"]
+        o = self.objs[src]
+        # update_from="original": the keys are given in the built spelling of the names that op["ren"] addresses by current name
+        if op.get("update_from") == "original":
+            given = {o.orig(c): n for c, n in op["ren"].items()}
+            kw = {"update_from": "original"}
+        else:
+            given, kw = dict(op["ren"]), {}
+
+        def fn(pl):
+            pl.update_renames(given, overwrite=True, **kw)
+            return pl
+        r = self._rewrite("overwrite_renames", src, a, fn)
+        if r is not None:
+            o.lift = {op["ren"].get(cur, o.names.get(cur, cur)): n for cur, n in o.lift.items()}
+            o.names = {op["ren"].get(cur, og): og for cur, og in o.names.items()}
+            o.lineage.append("overwrite_renames")
             self._finish([src])
 
     def op_update_scope(self, op: dict) -> None:
@@ -629,7 +655,17 @@ def gen_op(fam: Family, rng: random.Random, counter: list[int], *, mutation: boo
                "nest": 4 if len(pl.functions) >= 2 else 0, "simplified": (0.3 if mapped else 4) if len(pl.functions) >= 2 else 0,
                "split": 3 if len(pl._connected_components()) > 1 else 0.3,
                "add_mapspec_axis": 0 if merged else 2}
+    # overwrite=True is modelled only where the built spelling is still the model's original name (see Rewrites.tla)
+    ow_ok = (not merged and o.feats.get("plain_built") and not o.lift and
+             set(o.lineage) <= {"new", "copy", "pickle", "update_renames", "overwrite_renames", "update_scope", "remove_scope",
+                                "update_defaults", "update_bound"})
+    weights["overwrite_renames"] = 2 if ow_ok and o.lineage != ["new"] else 0
     kind = rng.choices(list(weights), list(weights.values()))[0]
+    if kind == "overwrite_renames":
+        names = roots + outs
+        ks = rng.sample(names, min(len(names), rng.choice([0, 1, 1, 2])))
+        return [{"op": "overwrite_renames", "src": src, "ren": {k: f"{rng.choice('cnr')}w{c}_{j}" for j, k in enumerate(ks)},
+                 "update_from": rng.choice(["current", "current", "original"])}]
     if kind in ("copy", "split"):
         return [{"op": kind, "src": src}]
     if kind == "pickle":
@@ -824,6 +860,44 @@ def directed_scripts() -> list[dict]:
                        {"op": "update_bound", "src": new_id, "f": ["a_out"], "p": "x_in", "v": {"f": "@m_new_x", "a": []}}]
                       + ([{"op": "update_bound", "src": 2, "f": ["p_out"], "p": "q_in", "v": {"f": "@m_new_q", "a": []}}]
                          if how in ("join", "or") else []), 0))
+    # defaults-alias-*: update_defaults on one of two objects whose functions went through PipeFunc.copy (copy / join / |
+    # / pickle) with an EXPLICITLY set, non-empty defaults dict, followed by a further rewrite of the OTHER object (the
+    # untouched object's cached `defaults` view hides a shared dict until it is copied again)
+    dd = [_f("fa", ["x_in", "y_in"], ["a_out"], dfl={"y_in": "@d_y"}),
+          _f("fb", ["a_out", "z_in", "w_in"], ["b_out"], dfl={"z_in": "@d_z"})]
+    dpart = [_f("fp", ["b_out", "q_in"], ["p_out"], dfl={"q_in": "@d_q"})]
+    for how, ops in (("copy", [{"op": "copy", "src": 1}]),
+                     ("join", [_new(dpart), {"op": "join", "src": 1, "partner": 2, "how": "join"}]),
+                     ("or", [_new(dpart), {"op": "join", "src": 1, "partner": 2, "how": "or"}]),
+                     ("pickle", [{"op": "pickle", "src": 1, "how": "pickle"}])):
+        new_id = 2 if how in ("copy", "pickle") else 3
+        for first, other in ((new_id, 1), (1, new_id)):
+            cases.append((f"defaults-alias-{how}-{'derived' if first == new_id else 'source'}-first",
+                          [_new(dd)] + ops +
+                          [{"op": "update_defaults", "src": first, "p": "z_in", "v": {"f": "@m_new_z", "a": []}},
+                           {"op": "copy", "src": other},
+                           {"op": "update_defaults", "src": other, "p": "y_in", "v": {"f": "@m_new_y", "a": []}},
+                           {"op": "pickle", "src": first, "how": "pickle"},
+                           {"op": "update_scope", "src": other, "scope": "s", "inputs": "*", "outputs": "*", "exclude": None}], 0))
+    # overwrite-*: update_renames(..., overwrite=True) after an edge (an output and the parameter reading it), a root argument
+    # or a scope was renamed: EVERY function goes back to its built spelling except for the names given now
+    ow = [_f("fa", ["x_in", "y_in"], ["a_out"], dfl={"y_in": "@d_y"}), _f("fb", ["a_out", "z_in"], ["b_out"]),
+          _f("fc", ["b_out", "x_in"], ["c_out"])]
+    cases.append(("overwrite-after-edge-rename",
+                  [_new(ow), {"op": "update_renames", "src": 1, "ren": {"a_out": "a_two", "z_in": "z_two"}},
+                   {"op": "overwrite_renames", "src": 1, "ren": {"x_in": "x_new"}},
+                   {"op": "copy", "src": 1},
+                   {"op": "overwrite_renames", "src": 1, "ren": {}},
+                   {"op": "overwrite_renames", "src": 2, "ren": {"b_out": "b_new", "y_in": "y_new"}, "update_from": "original"}], 0))
+    cases.append(("overwrite-after-scope",
+                  [_new(ow), {"op": "update_scope", "src": 1, "scope": "s", "inputs": "*", "outputs": "*", "exclude": None},
+                   {"op": "pickle", "src": 1, "how": "pickle"},
+                   {"op": "overwrite_renames", "src": 1, "ren": {"s.z_in": "z_plain"}},
+                   {"op": "overwrite_renames", "src": 2, "ren": {"s.c_out": "t.c_out"}}], 0))
+    cases.append(("overwrite-one-function-only",
+                  [_new(ow), {"op": "update_renames", "src": 1, "ren": {"b_out": "b_two"}},
+                   {"op": "update_renames", "src": 1, "ren": {"y_in": "y_two"}, "as": "mutate"},
+                   {"op": "overwrite_renames", "src": 1, "ren": {"z_in": "z_new"}}], 0))
     return [{"name": n, "script": with_evals(ops), "min_groups": g} for n, ops, g in cases]
 
 
